@@ -47,6 +47,88 @@ SUFFIXES = ["", "a", ";", "@b", ">", "-->", "-1-f-QINU\x7f", "\n", "|", "\0"]
 HOT = list(" \t\n\n\n=|!-+:;#*[]'<>/&_{}\"@.?%~^`aZz09xX\\\x7f\r\x0b\x1f") + [EBAD, EBAD, "\U0001F600", "é", "\ud800", "\uffff", "\0"]
 
 
+# LONG-LEXEME family.  The scanner stores a token as (type, start, len) and merges adjacent text; the quantifier of C10 is
+# "every text", so the LENGTH of one lexeme is a dimension of its own (field widths of the token record, offsets).  One family
+# per unbounded repetition of the rules ((lead,) pre, unit, suf): lexeme = pre + (unit repeated to fill) + suf of TOTAL length L.
+# "lead" is context that is needed for the rule to fire (table mode, not at the beginning of a line) and is not counted in L.
+LONG_FAMILIES = [
+    # rules that only match at the beginning of a line
+    ("bol-blanks-begin-table", "", "", " \t", "{|"), ("bol-colons-begin-table", "", " ", ":", "{|"),
+    ("bol-blanks-end-table", "", "", " ", "|}"), ("bol-row-dashes", "", "|", "-", ""), ("bol-row-dashes-table", "{|\n", "|", "-", ""),
+    ("bol-blanks-row-table", "{|\n", "", "\t ", "|-"), ("bol-blanks-column-table", "{|\n", "", " ", "!"),
+    ("bol-blanks-column", "", "", "\t", "|"), ("bol-caption-plus", "", "|", "+", ""), ("bol-caption-plus-table", "{|\n", "|", "+", ""),
+    ("bol-section-eq", "", "", "=", ""), ("bol-section-blanks", "", "==", " \t", ""), ("bol-item", "", "", ":;#*", ""),
+    ("bol-hrule", "", "", "-", ""),
+    # URL rules (6 schemes, bracketed and bare)
+    ("mailto-user", "", "mailto:", "ab.", "@h.org"), ("mailto-host", "", "mailto:u@", "h.", ""), ("mailto-link", "", "[mailto:u@", "h_", ""),
+    ("irc", "", "irc://", "c/", ""), ("irc-link", "", "[irc://", "c.", ""), ("news", "", "news:", "n.a", ""),
+    ("news-link", "", "[news:", "Zz", ""), ("ftp", "", "ftp://", "f/~", ""), ("ftp-link", "", "[ftp://", "f'", ""),
+    ("http", "", "http://a.b/?q=", "a%20", ""), ("https", "", "https://", "x", ""), ("http-link", "", "[http://", "x/", ""),
+    ("relurl-link", "", "[//", "r.", ""),
+    # uniq marker (three repetitions)
+    ("uniq-name", "", "\x7fUNIQ-", "a1", "-2-f-QINU\x7f"), ("uniq-dec", "", "\x7fUNIQ-a-", "12", "-f-QINU\x7f"),
+    ("uniq-hex", "", "\x7fUNIQ-a-1-", "0f", "-QINU\x7f"),
+    # plain repetitions of the main block
+    ("alnum", "", "", "Ab0", ""), ("underscores", "", "", "_", ""), ("eq-midline", "a", "", "=", ""), ("eq-blanks-midline", "a", "=", " \t", ""),
+    ("eq-section-end", "== t ", "", "=", ""), ("newlines", "a", "", "\n", ""), ("newlines-blanks", "a", "\n", " \n ", "\n"),
+    ("quotes", "", "", "'", ""),
+    ("tag-name", "", "<", "b", ">"), ("tag-attr", "", "<b x='", "a ", "'>"), ("tag-close", "", "</b", " ", ">"), ("tag-selfclose", "", "<br ", "x", "/>"),
+    ("comment", "", "<!--", "x -", "-->"), ("entity-name", "", "&", "aZ9", ";"), ("entity-hex", "", "&#x", "aF0", ";"),
+    ("entity-dec", "", "&#", "109", ";"),
+    # not one lexeme but one TOKEN / one gap: merged text, U+EBAD run, non-BMP, unmatched openers that fall back to single characters
+    ("merged-text", "", "", "ab ", ""), ("merged-nonascii", "", "", "é", ""), ("ebad-run", "a", "", EBAD, ""),
+    ("nonbmp", "", "", "\U0001F600", ""), ("unterminated-comment", "", "<!--", "x", ""), ("unterminated-tag", "", "<b ", "x", ""),
+    ("unterminated-entity", "", "&", "a", ""),
+]
+# total lexeme lengths: around every width a length/offset field could have (8, 15, 16, 17 bits), and well beyond
+LONG_LENGTHS = {"quick": [65535, 65536, 65537, 70000, 131077], "thorough": [32767, 32768, 65535, 65536, 65537, 70000, 131071, 131072,
+                                                                          131077, 196613, 262147, 1048583]}
+SHORT_WIDTHS = [255, 256, 257, 32767, 32768]      # alone only, both tiers
+# (before, after) contexts: alone, embedded in a line of ordinary text, embedded on a line of its own between ordinary lines
+LONG_CONTEXTS = [("", ""), ("ab ", " cd"), ("ab\n", " cd\nef")]
+
+
+def long_cases(rng, tier):
+    """[(label, [[unit, n], ...])]: every family x every length x contexts (quick: alone + one embedding, chosen so that
+    beginning-of-line rules stay at the beginning of a line; thorough: all three), plus one seeded random length per family"""
+    cases = []
+    for name, lead, pre, unit, suf in LONG_FAMILIES:
+        lens = [(L, True) for L in LONG_LENGTHS[tier]] + [(L, False) for L in SHORT_WIDTHS if L not in LONG_LENGTHS[tier]]
+        lens.append((rng.randint(65538, 200000), True))
+        for L, embed in lens:
+            body = L - len(pre) - len(suf)
+            if tier == "thorough":
+                ctxs = LONG_CONTEXTS
+            else:
+                ctxs = [LONG_CONTEXTS[0], LONG_CONTEXTS[2] if name.startswith("bol-") else LONG_CONTEXTS[1]]
+            for before, after in (ctxs if embed else ctxs[:1]):
+                segs = [[before, len(before)], [lead, len(lead)], [pre, len(pre)], [unit, body], [suf, len(suf)], [after, len(after)]]
+                cases.append(("%s/%d/%s" % (name, L, "alone" if not before else "embedded"), [s for s in segs if s[1] > 0]))
+    return cases
+
+
+def seg_text(segs):
+    parts = []
+    for unit, n in segs:
+        q, r = divmod(n, len(unit))
+        parts.append(unit * q + unit[:r])
+    return "".join(parts)
+
+
+def show_segs(segs):
+    """human readable form of a segment list: 'A'*65536 + '-->'"""
+    out = []
+    for unit, n in segs:
+        q, r = divmod(n, len(unit))
+        if q == 1 and r == 0:
+            out.append(repr(unit))
+        elif r == 0:
+            out.append("%r*%d" % (unit, q))
+        else:
+            out.append("(%r*%d)[:%d]" % (unit, q + 1, n))
+    return " + ".join(out) if out else "''"
+
+
 def random_texts(rng, n):
     res = []
     for i in range(n):
@@ -150,7 +232,11 @@ def check(run):
                 "marker, U+EBAD, NUL, non-BMP), all sequences of <=3 over an 88-lexeme extension (incl. a lone surrogate, "
                 "U+10FFFF, partial markers), in the thorough tier all sequences of 4 over a 64-lexeme alphabet, all sequences of <=5 / <=6 "
                 "over 14 state-driving lexemes, every boundary code point (lo-1, lo, hi, hi+1) of every character class of the generated "
-                "rules between 52 prefixes and 10 suffixes, plus seeded random long texts (lexeme soup, hot characters, table-like documents, "
+                "rules between 52 prefixes and 10 suffixes, a LONG-LEXEME family (one lexeme per unbounded repetition of the rules - " + str(len(LONG_FAMILIES))
+                + " families: line-start table/section/list/rule markup, 6 URL schemes bare and bracketed, uniq marker parts, alphanumerics, '_', '=', "
+                "newline runs, quotes, tag name/attribute, comment, entities, merged text, U+EBAD run - of total length 255..257, 32767/8, "
+                "65535, 65536, 65537, 70000, 131077 and a seeded random length (thorough: up to 2^20+7), alone and embedded in ordinary text), "
+                "plus seeded random long texts (lexeme soup, hot characters, table-like documents, "
                 "arbitrary code points). distinct = distinct text; non-trivial = real output has >=2 tokens or the text contains "
                 "U+EBAD or NUL")
     run.trusted = [
@@ -208,6 +294,13 @@ def check(run):
         with open(sp["inp"], "w") as f:
             for t in rtexts[k:k + per]:
                 f.write(" ".join(str(ord(c)) for c in t) + "\n")
+    # long-lexeme family (harness builds the texts from segments and writes the model's input itself)
+    lcases = long_cases(run.rng, run.tier)
+    nshard_long = 12 if run.tier == "quick" else 32
+    for k in range(nshard_long):
+        part = lcases[k::nshard_long]
+        if part:
+            add_spec("long%02d" % k, mode="long", cases=[[[[ord(c) for c in u], n] for u, n in segs] for _l, segs in part])
     # exhaustive shards
     shard = 45000 if run.tier == "quick" else 250000
     total_enum = 0
@@ -221,6 +314,8 @@ def check(run):
     ncases = 0
     nviol = 0
     dist = {"exhaustive_texts": total_enum, "random_texts": nrand, "class_boundary_texts": len(btexts), "corpus": len(corpus),
+            "long_lexeme_texts": len(lcases), "long_lexeme_families": len(LONG_FAMILIES),
+            "long_lexeme_lengths": sorted(set(LONG_LENGTHS[run.tier] + SHORT_WIDTHS)),
             "text_length_max": 0, "token_count_hist": {}}
     hist = {}
     reported = 0
@@ -232,10 +327,20 @@ def check(run):
             for h in res["hits"]:
                 if reported < 10:
                     reported += 1
-                    mt = "".join(chr(c) for c in h["min_text"])
-                    run.hit("tiling:%s:%s" % (h["kind"], json.dumps(h["min_text"])),
-                            "utoken.scan(%r) = %r: %s" % (mt, h["min_tokens"], h["min_what"] or h["what"]),
-                            {"text": h["min_text"], "original_text": h["text"], "what": h["what"]})
+                    rep = {"what": h["what"]}
+                    if h.get("min_rle") is not None:
+                        msegs = [["".join(chr(c) for c in u), n] for u, n in h["min_rle"]]
+                        mt, fp = show_segs(msegs), "rle:" + json.dumps(h["min_rle"])
+                        rep["text_rle"] = h["min_rle"]
+                    else:
+                        mt, fp = repr("".join(chr(c) for c in h["min_text"])), json.dumps(h["min_text"])
+                        rep["text"] = h["min_text"]
+                    if h.get("text_rle") is not None:
+                        rep["original_text_rle"] = h["text_rle"]
+                    else:
+                        rep["original_text"] = h["text"]
+                    run.hit("tiling:%s:%s" % (h["kind"], fp),
+                            "utoken.scan(%s) = %r: %s" % (mt, h["min_tokens"], h["min_what"] or h["what"]), rep)
             for k, v in res["stats"]["token_count_hist"].items():
                 hist[int(k)] = hist.get(int(k), 0) + v
             dist["text_length_max"] = max(dist["text_length_max"], res["stats"]["text_length_max"])
@@ -297,6 +402,10 @@ def replay(obj):
         badr = rc != 0 or not res or bool(res[-1]["bad"])
         print("REPRODUCED" if badr else "not reproduced")
         return 1 if badr else 0
+    if "text" not in rep and "text_rle" in rep:
+        segs = [["".join(chr(c) for c in u), n] for u, n in rep["text_rle"]]
+        print("text   = " + show_segs(segs))
+        rep = dict(rep, text=[ord(c) for c in seg_text(segs)])
     if "text" not in rep:
         print(json.dumps(rep, indent=1))
         return 1
@@ -312,8 +421,9 @@ def replay(obj):
         print(out)
         return 1
     text = "".join(chr(c) for c in rep["text"])
-    print("text   = %r" % text)
-    print("tokens = %s" % open(spec["out"]).read().strip())
+    if len(text) <= 4096:
+        print("text   = %r" % text)
+    print("tokens = %s" % open(spec["out"]).read().strip()[:2000])
     hits = [json.loads(l) for l in open(spec["hits"]) if l.strip()]
     total = hits.pop()["total_violations"]
     for h in hits:
